@@ -465,7 +465,13 @@ def r02_7(ctx) -> None:
                     and isinstance(d[1].func.value, ast.Name)]
             coll = pops[0].func.value.id if pops else None  # type: ignore[union-attr]
             if coll is None:
-                raise AnalysisError("R02.7: cannot interpret how the single CEK is chosen (expected <collection>.pop())")
+                if _keep_first_idiom(ctx, eng, fn, cfg, cek.id, dn):
+                    n += 3
+                    okd = _recipient_handler_generic(ctx, eng, fn, cfg)
+                    if okd:
+                        ctx.ok("R02.7", f"{fn.short} :: recipient errors", "every handler re-raises when registry.verify_all_recipients")
+                    continue
+                raise AnalysisError("R02.7: cannot interpret how the single CEK is chosen (expected <collection>.pop() or keep-first-and-compare)")
             pop_node = cfg.node_of(pops[0])
             empty_ok = multi_ok = False
             for t in cfg.nodes:
@@ -505,6 +511,93 @@ def r02_7(ctx) -> None:
                   "JWERegistry.__init__ :: stores the flag", "verify_all_recipients is not stored as given", "self.verify_all_recipients = verify_all_recipients",
                   construct="verify_all_recipients store")
     ctx.count("R02.7", n, 5, "CEK selection obligations")
+
+
+def _keep_first_idiom(ctx, eng, fn, cfg, var: str, dn) -> bool:
+    """alternative to the set idiom: the first recipient's CEK is kept in `var`, every later one is compared with it.
+    Returns False when the function does not have this shape at all (caller reports ANALYSIS-ERROR)."""
+    defs = [d for d in eng.flow._defs(fn).get(var, []) if d[0] == "assign"]
+    inits = [d for d in defs if isinstance(d[1], ast.Constant) and d[1].value in (b"", None)]
+    takes = [d for d in defs if isinstance(d[1], ast.Name)]
+    if len(inits) != 1 or len(takes) != 1:
+        return False
+    x = takes[0][1].id
+    loops = [l for l in cfg.nodes if l.kind == "loop" and any(n is takes[0][1] for n in ast.walk(l.ast))]
+    if not loops:
+        return False
+    L = loops[-1]
+
+    def atom(e):
+        t = norm(e)
+        if t == var:
+            return ("has", True)
+        if isinstance(e, ast.Call) and norm(e.func).endswith("compare_digest") and len(e.args) == 2 and {norm(e.args[0]), norm(e.args[1])} == {x, var}:
+            return ("eq", True)
+        if isinstance(e, ast.Compare) and len(e.ops) == 1 and {norm(e.left), norm(e.comparators[0])} == {x, var} and isinstance(e.ops[0], (ast.Eq, ast.NotEq)):
+            return ("eq", isinstance(e.ops[0], ast.Eq))
+        return None
+    # paths of one loop iteration
+    bad_paths = []
+    stack = [(s0, {}, frozenset()) for s0 in succ_by_label(cfg, L, "iter")]
+    seen_guard = 0
+    while stack:
+        n0, lits, seen = stack.pop()
+        seen_guard += 1
+        if seen_guard > 50000:
+            raise AnalysisError("R02.7: path enumeration exploded")
+        if n0 is L or n0 is cfg.exit:
+            if lits.get("has") is True and lits.get("eq") is not True:
+                bad_paths.append(dict(lits))
+            continue
+        if n0.idx in seen or n0 is cfg.raise_exit:
+            continue
+        for s1, lab in cfg.succ[n0]:
+            l2 = lits
+            if n0.kind == "test" and lab in ("true", "false"):
+                a = atom(n0.ast)
+                if a is not None:
+                    val = (lab == "true") == a[1]
+                    if a[0] in lits and lits[a[0]] != val:
+                        continue
+                    l2 = dict(lits)
+                    l2[a[0]] = val
+            stack.append((s1, l2, seen | {n0.idx}))
+    ctx.check(not bad_paths, "R02.7", fn, L.ast, f"{fn.short} :: all recipients yield the same CEK", "a recipient whose CEK differs from the one already kept can be accepted: some path of the "
+              f"recipient loop with a CEK already present completes without the equality of the two CEKs being established ({bad_paths[:2]})",
+              "every continuing path with a kept CEK passed an equality test of the two CEKs", construct="multiple CEK guard")
+    # at least one recipient: `if not cek: raise` dominates the content decryption
+    empty_ok = False
+    for t in cfg.nodes:
+        if t.kind == "test" and norm(t.ast) == var and not can_reach_exit(cfg, succ_by_label(cfg, t, "false")) and any(x is t.ast for x in ast.walk(fn.node)) \
+                and not any(x is t.ast for x in ast.walk(L.ast)):
+            if cfg.must_pass(cfg.entry, dn, [t]):
+                empty_ok = True
+    ctx.check(empty_ok, "R02.7", fn, fn.node, f"{fn.short} :: at least one recipient yields a CEK", "decryption proceeds although no recipient yielded a CEK", f"raise when `{var}` is still empty",
+              construct="empty CEK set guard")
+    return True
+
+
+def _recipient_handler_generic(ctx, eng, fn, cfg) -> bool:
+    """every handler around a CEK-recovery call leaves normally only when registry.verify_all_recipients is falsy"""
+    ok = True
+    for tr in [n for n in ast.walk(fn.node) if isinstance(n, ast.Try)]:
+        if not any(isinstance(x, ast.Call) and (eng.cg.site_of.get(id(x)) is not None) and any(c.name == "decrypt_recipient" or "decrypt" in c.name for c in eng.cg.site_of[id(x)].callees)
+                   for b in tr.body for x in ast.walk(b)):
+            continue
+        for h in tr.handlers:
+            hn = [n for n in cfg.nodes if n.kind == "handler" and n.ast is h]
+            if not hn:
+                continue
+            gates = [t for t in cfg.nodes if t.kind == "test" and isinstance(t.ast, ast.Attribute) and t.ast.attr == "verify_all_recipients" and any(t.ast is x for x in ast.walk(h))
+                     and all(_only_raises(cfg, s, h) for s in succ_by_label(cfg, t, "true"))]
+            inside = {id(x) for x in ast.walk(h)}
+            outside = [n for n in cfg.nodes if n.ast is not None and id(n.ast) not in inside and n.kind in ("stmt", "test", "loop")]
+            reach = cfg.reachable(hn[0], gates)
+            if any(n in reach for n in outside) or cfg.exit in reach:
+                ctx.fail("R02.7", fn, h, "an error while recovering a recipient's CEK is swallowed even when every recipient must verify (verify_all_recipients)",
+                         construct="recipient error handler")
+                ok = False
+    return ok
 
 
 def _recipient_handler(ctx, eng, fn, cfg, coll: str) -> bool:
